@@ -1337,6 +1337,19 @@ theorem hedId_malformed (env : Env) (lib : Str) (t : Sec) (ie : IE) (a v : Str)
   unfold vHedIdLib
   simp only [h, hn]
 
+/-- the id `HED_0000000` is the number 0 — a falsy value in Python, but an id like any other: with no id in the
+previous release it is outside the library range 40000–59999 (and outside 10000–39999) and is flagged -/
+theorem hedId_zero_flagged :
+    pyInt (removePrefix hedPrefix ['H','E','D','_','0','0','0','0','0','0','0']) = some 0 ∧
+    idOutOfRange nestedEnv ['s','c','o','r','e'] 0 = true ∧
+    vHedIdLib nestedEnv ['s','c','o','r','e'] .tags
+      (0, ⟨['L','i','b'], [(Key.HedID, .text ['H','E','D','_','0','0','0','0','0','0','0'])], [], [], []⟩) Key.HedID
+      = [IK.hedIdInvalid] ∧
+    -- the interval is closed: both ends are inside
+    idOutOfRange nestedEnv ['s','c','o','r','e'] 40000 = false ∧ idOutOfRange nestedEnv ['s','c','o','r','e'] 59999 = false ∧
+    idOutOfRange nestedEnv ['s','c','o','r','e'] 39999 = true ∧ idOutOfRange nestedEnv ['s','c','o','r','e'] 60000 = true := by
+  decide
+
 /-- `item_exists_check` flags exactly the comma items that are not found (deprecation aside): an item that
 exists and is not deprecated contributes nothing -/
 theorem itemExists_silent_of_found (s : Schema) (c : TagCtx) (t : Sec) (ie : IE) (a v : Str) (target : Sec)
